@@ -812,6 +812,26 @@ async def c08_filter_scope(w):
     return {"reproduced": not ok, "observed": {"runs (event numbers)": out}, "expected": "[1] in both subsystems: the second event has no `level`"}
 
 
+async def c11_cross_context_closure(w):
+    """A function imported from a pyscript module executes an inner def whose free name is a global of ITS module, while being
+    called from a script function that keeps a same-named local in a closure cell: the closure must use the module's global."""
+    from custom_components.pyscript.global_ctx import GlobalContext, GlobalContextMgr
+    await boot_full()
+    m = GlobalContext("modules.c11m", global_sym_table={"__name__": "modules.c11m"}, manager=GlobalContextMgr)
+    GlobalContextMgr.set("modules.c11m", m)
+    _, _, e1 = await run_source("modules.c11m", "factor = 10\ndef make():\n    def g(x):\n        return x * factor\n    return g\n", global_ctx=m)
+    f = GlobalContext("file.c11f", global_sym_table={"__name__": "file.c11f", "make": m.global_sym_table.get("make")}, manager=GlobalContextMgr)
+    GlobalContextMgr.set("file.c11f", f)
+    src = ("def caller():\n    factor = 2\n    def inner():\n        return factor\n    h = make()\n    return [h(3), inner()]\n"
+           "r = caller()\nr_top = make()(3)\n")
+    _, _, e2 = await run_source("file.c11f", src, global_ctx=f)
+    got = [f.global_sym_table.get("r"), f.global_sym_table.get("r_top")]
+    await shutdown()
+    want = [[30, 2], 30]
+    return {"reproduced": got != want or e1 is not None or e2 is not None, "observed": {"r, r_top": got, "errors": [repr(e1), repr(e2)]},
+            "expected": {"r, r_top": want}}
+
+
 async def c12_outgoing(w):
     """service.call / domain.service() with control-keyword look-alikes; data delivered must equal the given kwargs
     minus control keywords of the recognised type."""
